@@ -29,12 +29,28 @@ PER_NAME_CORE = ("td", "obj", "enum", "open_fn")      # the events that change t
 STRUCTURAL = ("open", "close", "init")
 
 
+NOOP_STATEMENTS = {
+    "s_for_if": "for ( int i%(i)d = 0 ; i%(i)d < 1 ; i%(i)d ++ ) if ( i%(i)d ) ;",
+    "s_for_blk": "for ( int j%(i)d = 0 ; ; ) { break ; }",
+    "s_if": "if ( 1 ) ;",
+    "s_sw": "switch ( 1 ) { case 1 : ; default : while ( 0 ) if ( 1 ) ; else ; }",
+}
+
+
 def alphabet(kind="full", init_enum=False):
     per = {"full": PER_NAME_FULL, "reduced": PER_NAME_REDUCED, "core": PER_NAME_CORE,
            # lead: old-style (K&R) definitions - identifier list plus declaration list
-           "kr": PER_NAME_CORE + ("open_kr",)}[kind.partition("@")[0]]
+           "kr": PER_NAME_CORE + ("open_kr",),
+           # lead: definitions with an unnamed parameter of function type whose
+           # own parameter list is a visible typedef name ('int * ( B )')
+           # lead: statements that declare nothing visible afterwards, between
+           # the declarations (their parsing looks ahead / opens scopes of its own)
+           "stmt": PER_NAME_CORE,
+           "abs": PER_NAME_CORE + ("open_abs", "open_abs2")}[kind.partition("@")[0]]
     evs = [(k, n) for k in per for n in NAMES]
     evs += [(k, None) for k in (STRUCTURAL if kind != "core" else ("open", "close"))]
+    if kind.partition("@")[0] == "stmt":
+        evs += [(k, None) for k in NOOP_STATEMENTS]
     if init_enum:
         # an enumerator declared inside braces that are not a scope
         evs += [("init_enum", n) for n in NAMES] + [("member_enum", n) for n in NAMES]
@@ -167,6 +183,18 @@ def apply(st, ev, typedef_labels=False):
         if in_function(st) or is_typedef(st, name):
             return None
         return (scopes + (("func", ((name, "ordinary", "param"),), ()),), (), linkage)
+    if k in ("open_abs", "open_abs2"):
+        # void g(int N, int *(O)) {   with O a visible typedef name: '(O)' is the
+        # parameter list of an unnamed function-typed parameter (C99 6.7.5.3p11),
+        # nothing named O is declared.  (With O not a typedef the same text would
+        # declare a parameter O: those histories are not generated.)
+        if in_function(st) or not is_typedef(st, _other(name)):
+            return None
+        return (scopes + (("func", ((name, "ordinary", "param"),), ()),), (), linkage)
+    if k in NOOP_STATEMENTS:     # a statement; its own declarations end with it
+        if not in_function(st):
+            return None
+        return st
     if k == "open":
         if not in_function(st) or depth(st) >= MAX_DEPTH:
             return None
@@ -210,6 +238,8 @@ def text(ev, idx):
     """C text of the event; idx (position in the history) makes helper names
     unique."""
     k, n = ev
+    if k in NOOP_STATEMENTS:
+        return NOOP_STATEMENTS[k] % {"i": idx}
     sp = SPELLINGS[SPELLING]
     return {
         "td": sp["td"] % {"n": n, "i": idx},
@@ -223,6 +253,8 @@ def text(ev, idx):
         "proto": "void h%d ( int %s ) ;" % (idx, n),
         "open_fn": sp.get("open_fn", "void g%(i)d ( int %(n)s ) {") % {"n": n, "i": idx, "o": _other(n)},
         "open_kr": "int g%d ( %s , kk%d ) int %s ; char kk%d ; {" % (idx, n, idx, n, idx),
+        "open_abs": "void g%d ( int %s , int * ( %s ) ) {" % (idx, n, _other(n)),
+        "open_abs2": "void g%d ( int ( * ( %s ) ) , int * const ( ( %s ) ) , int %s ) {" % (idx, _other(n), _other(n), n),
         "open": "{",
         "close": "}",
         "init": "int z%d [ ] = { 0 } ;" % idx,
